@@ -9,6 +9,7 @@ import MiniMcmcVerif.Driver.Stats
 import MiniMcmcVerif.Driver.C07
 import MiniMcmcVerif.Driver.C10
 import MiniMcmcVerif.Driver.C15
+import MiniMcmcVerif.Driver.C02
 
 open MiniMcmcVerif MiniMcmcVerif.Driver
 
@@ -34,6 +35,7 @@ def dispatch (line : String) : String :=
   | "c15iso" :: args => c15iso args
   | "c15r2" :: args => c15r2 args
   | "c15rn" :: args => c15rn args
+  | "c02" :: args => c02 args
   | _ => "bad-op"
 
 partial def loop (h : IO.FS.Stream) (out : IO.FS.Stream) : IO Unit := do
